@@ -28,7 +28,10 @@ def gen_cases(seed, tier, n):
     out = []
     profs = ["kbreak_fewnames", "kbreak", "kbreak_fewnames", "comm_overlap"]
     for i in range(n):
-        c = tracegen.gen_case(seed, i, tracegen.PROFILES[profs[i % len(profs)]])
+        if i % 10 == 9:
+            c = tracegen.gen_chain_case(seed, i)        # every duration below 128 (int8 column), sums and unions far above
+        else:
+            c = tracegen.gen_case(seed, i, tracegen.PROFILES[profs[i % len(profs)]])
         rng = random.Random(seed * 7919 + i)
         c["params"] = {"numk": rng.choice([1, 1, 2, 2, 3, 4, 5, 8, 12]), "k16": rng.randint(1, 16), "mem": rng.random() < 0.5}
         if i % 3 == 1:
